@@ -1,7 +1,7 @@
 #!/usr/bin/env python3-vt
 """dev tool: write the SMT-LIB query of the obligations whose name contains a text: tools/dump_ob.py Cnn <contract key> <text> <outfile-prefix>"""
 import sys, importlib, signal
-sys.path.insert(0, '/verif'); sys.path.insert(0, '/repo')
+import os; sys.path.insert(0, '/verif'); sys.path.insert(0, os.environ.get('VERIF_REPO', '/repo'))
 from pyvc import main, solve
 prop, key, text, out = sys.argv[1:5]
 m = importlib.import_module(f'specs.{prop.lower()}')
